@@ -5,6 +5,8 @@
 cd "$(dirname "$0")/.."
 ROOT=$(pwd)
 mkdir -p "$ROOT/build"
+exec 9>"$ROOT/build/.buildlock"
+flock 9          # one build at a time (several checks / agents may run concurrently)
 cd coq
 { echo "-Q . Oak"; find Base Model Spec Proofs Props Refuted Run -name "*.v" | sort; } > _CoqProject.new
 if ! cmp -s _CoqProject.new _CoqProject || [ ! -f Makefile.coq ]; then
